@@ -43,7 +43,8 @@ namespace {
 // RecvFrom fills the WHOLE destination buffer with the poison byte, then copies the armed datagram.
 class PoisonSocket: public ola::network::UDPSocketInterface {
  public:
-  PoisonSocket() : armed(false), poison(0), overlay_prev(false) {}
+  PoisonSocket() : armed(false), poison(0), overlay_prev(false), kernel(false), real(NULL) {}
+  ~PoisonSocket() { delete real; }
   bool Init() { return true; }
   bool Bind(const IPV4SocketAddress &) { return true; }
   bool GetSocketAddress(IPV4SocketAddress *) const { return false; }
@@ -66,6 +67,17 @@ class PoisonSocket: public ola::network::UDPSocketInterface {
   bool RecvFrom(uint8_t *buffer, ssize_t *data_read, IPV4SocketAddress *source) {
     if (!armed) return false;
     armed = false;
+    if (kernel) {
+      // fourth instance: through the real ola::network::UDPSocket::RecvFrom and the kernel (loopback datagram)
+      if (!real) { real = new ola::network::UDPSocket(); real->Init(); }
+      c06::set_rx(dgram);
+      bool ok;
+      { c06::KernelMode km; ok = real->RecvFrom(buffer, data_read, source); }
+      IPV4Address ksrc;
+      IPV4Address::FromString("10.0.0.2", &ksrc);
+      *source = IPV4SocketAddress(ksrc, 6454);
+      return ok;
+    }
     size_t cap = static_cast<size_t>(*data_read);
     memset(buffer, poison, cap);
     // third twin: the stale bytes are what the previous datagram left in the buffer
@@ -88,6 +100,8 @@ class PoisonSocket: public ola::network::UDPSocketInterface {
   bool armed;
   uint8_t poison;
   bool overlay_prev;
+  bool kernel;
+  ola::network::UDPSocket *real;
   vector<uint8_t> dgram, prev;
   mutable vector<vector<uint8_t> > sent;
 };
@@ -190,11 +204,13 @@ struct Twin {
 
 string do_artnet(const vector<string> &a) {
   if (a.size() < 3) return "bad-args";
-  Twin t[3];
+  Twin t[4];
   t[0].setup(a[1]);
   t[1].setup(a[1]);
   t[2].setup(a[1]);
+  t[3].setup(a[1]);
   t[2].sock->overlay_prev = true;
+  t[3].sock->kernel = true;
   c06::Trace tr;
   for (size_t k = 2; k < a.size(); k++) {
     vector<uint8_t> d = vh::unhex(a[k]);
@@ -205,11 +221,15 @@ string do_artnet(const vector<string> &a) {
     // third instance: receive buffer = previous datagram's bytes (then 0xA5) under the new datagram
     string o2 = t[2].deliver(c06::POISON[1], d, &tx2);
     if (o2 != o0 || tx2 != tx0) o1 += "|prevdiff";
+    vector<vector<uint8_t> > tx3;
+    string o3 = t[3].deliver(c06::POISON[1], d, &tx3);
+    if (o3 != o0 || tx3 != tx0) o1 += "|kerneldiff";
     tr.add(o0, o1);
   }
   t[0].teardown();
   t[1].teardown();
   t[2].teardown();
+  t[3].teardown();
   return tr.result();
 }
 c06::Reg reg("artnet", do_artnet);
